@@ -25,6 +25,9 @@ RULE = (
     "plus either a sequence of 3-10 conditional updates or two updaters with 1-3 conditional updates each and a schedule; "
     "non-trivial (seq) = at least one call carried a stale expected value against an existing ref or add_if_new met an existing ref; "
     "non-trivial (conc) = both updaters performed a mutating store operation and the scheduler switched between them; "
+    "a third kind of run (mode push) lets the real push path (InterToLocalGitRepository.fetch_refs of a small native branch) update a ref while a "
+    "second updater performs one conditional update of that ref before / between the push's refs snapshot and its ref update / after it "
+    "(non-trivial = the second updater succeeded between snapshot and update); "
     "distinct = distinct event-log digests of such runs"
 )
 COMPONENTS = {
@@ -33,6 +36,7 @@ COMPONENTS = {
         "dulwich.refs.RefsContainer (follow/read_ref) and packed-refs parser/writer",
         "dulwich.file._GitFile O_EXCL lock files (local-path store only; not routed through the seam)",
         "dromedary MemoryTransport / LocalTransport under the seam",
+        "mode push: breezy.git.interrepo.InterToLocalGitRepository.fetch_refs/fetch_revs, BazaarObjectStore (Dict cache), a 2a source repository",
     ],
     "simulated": ["process scheduling of the two updaters (baton-passing threads, pre-emption at every store op)"],
     "stub": ["initial repository layout and packed-refs file written directly to the store"],
@@ -98,8 +102,33 @@ class _Ctr:
         return self.n
 
 
+def _gen_push(rng, ctr):
+    """A push (InterToLocalGitRepository.fetch_refs) of a small native branch onto one ref,
+    and a second updater acting on the same ref before / during (between the push's refs
+    snapshot and its ref update) / after it."""
+    name = rng.choice(NAMES[:2])
+    init = _gen_init(rng, ctr)
+    init.pop("refs/heads/s", None)
+    if init.get("HEAD", {}).get("sym") in (name, "refs/heads/s"):
+        init.pop("HEAD")
+    if rng.random() < 0.55:
+        init.pop(name, None)
+    return {
+        "mode": "push",
+        "store": rng.choice(["memory", "local"]),
+        "header": rng.random() < 0.7,
+        "init": init,
+        "ref": name,
+        "history": gitsim.gen_history(rng, rng.randint(1, 2)),
+        "when": rng.choice(["before", "during", "during", "during", "after"]),
+        "b_op": [rng.choice(["add", "add", "set", "remove"]), rng.choice(["cur", "cur", "cur", "stale", "none"]), ctr.next(), ctr.next()],
+    }
+
+
 def generate(rng, tier):
     ctr = _Ctr()
+    if rng.random() < 0.12:
+        return _gen_push(rng, ctr)
     plan = {
         "mode": "seq" if rng.random() < 0.5 else "conc",
         "store": rng.choice(["memory", "local"]),
@@ -112,7 +141,16 @@ def generate(rng, tier):
             kind = rng.choice(["set"] * 5 + ["add"] * 2 + ["remove"] * 3)
             name = rng.choice(NAMES * 3 + ["HEAD", "HEAD", "refs/heads/s"])
             oldk = rng.choice(["cur"] * 4 + ["stale"] * 3 + ["prev"] * 2 + ["none"] * 2 + ["zero"])
-            ops.append([kind, name, oldk, ctr.next(), ctr.next(), rng.random() < 0.3])
+            # the value written: unique, or (often together with a stale/zero expected value)
+            # the value the ref already holds - "somebody else already made my update"
+            newk = "fresh"
+            if kind == "set" and rng.random() < (0.45 if oldk in ("stale", "prev", "zero") else 0.15):
+                newk = "cur"
+            ops.append([kind, name, oldk, ctr.next(), ctr.next(), rng.random() < 0.3, newk])
+            if kind == "set" and oldk == "cur" and newk == "fresh" and rng.random() < 0.3:
+                # two updaters performing the same A->B update one after the other: the second
+                # one's expected value is stale, its new value is already current
+                ops.append(["set", name, "prev", ctr.next(), ctr.next(), False, "cur"])
         plan["ops"] = ops
         return plan
     focus = rng.sample(NAMES, rng.choice([1, 1, 2]))
@@ -169,8 +207,100 @@ def execute(sim, plan):
     _check_state(sim, t, model, names, "initial", None)
     if plan["mode"] == "seq":
         _run_seq(sim, plan, t, model, names)
+    elif plan["mode"] == "push":
+        _run_push(sim, plan, t, model, names)
     else:
         _run_conc(sim, plan, t, model, names)
+
+
+def _run_push(sim, plan, t, model, names):
+    """Updater A pushes a native branch onto plan['ref'] through the real push path; updater
+    B (own refs container = another process) performs one conditional update of the same
+    ref at a chosen moment.  A's ref update is a conditional update relative to the refs it
+    read at the start (absent -> add-if-new, else set-if-equals); nobody's acknowledged
+    update may be lost."""
+    from breezy.controldir import ControlDir
+    from breezy.git.transportgit import TransportRefsContainer
+    from breezy.repository import InterRepository
+    from breezy.transport import get_transport
+
+    nameb = plan["ref"].encode()
+    when = plan["when"]
+    kind, oldk, newi, stalei = plan["b_op"]
+    branch = gitsim.build_history(get_transport(world.new_store("src")).clone("br"), plan["history"])
+    tip = plan["history"][-1]["revid"].encode()
+    b_refs = TransportRefsContainer(t.clone())
+    seen = {}
+
+    def do_b():
+        cur = model.d.get(nameb)
+        if kind == "add" or oldk == "none" or (oldk == "cur" and cur is None):
+            old = None
+        elif oldk == "cur":
+            old = cur
+        else:
+            old = sha(stalei)
+        op = (kind, nameb, old, sha(newi))
+        try:
+            got = bool(gitsim.call_op(b_refs, op))
+        except SimCrash:
+            raise
+        except Exception as e:  # noqa: BLE001 - nothing may fail: no two calls overlap
+            sim.fail("cas", ["cas", "push", f"second-updater:{OPNAME[kind]}:raised:{type(e).__name__}"], f"{OPNAME[kind]}({plan['ref']}) by the second updater raised {type(e).__name__}: {e}")
+        want = model.apply(op)
+        seen["b"] = (op, got, want)
+        sim.event("B", OPNAME[kind], plan["ref"], "old" if old else "none", got)
+
+    with gitsim.dict_git_cache():
+        git = ControlDir.open_from_transport(t.clone()).open_repository()
+        inter = InterRepository.get(branch.repository, git)
+        orig_snap, orig_fetch = inter._get_target_either_refs, inter.fetch_revs
+
+        def snap_w():
+            r = orig_snap()
+            seen["snapshot"] = r.get(nameb, (None, None))[0] or None
+            seen["model_at_snapshot"] = model.d.get(nameb)
+            return r
+
+        def fetch_w(*a, **k):
+            r = orig_fetch(*a, **k)
+            if when == "during":
+                do_b()
+            return r
+
+        inter._get_target_either_refs = snap_w
+        inter.fetch_revs = fetch_w
+        if when == "before":
+            do_b()
+        try:
+            _revidmap, _old, new_refs = inter.fetch_refs(lambda old_refs: {nameb: (None, tip)}, lossy=True, overwrite=True)
+        except SimCrash:
+            raise
+        except Exception as e:  # noqa: BLE001
+            sim.fail("cas", ["cas", "push", f"push-raised:{type(e).__name__}"], f"the push onto {plan['ref']} raised {type(e).__name__}: {str(e)[:300]}")
+        g = new_refs[nameb][0]
+        if seen["snapshot"] != seen["model_at_snapshot"]:
+            sim.fail("cas", ["cas", "push", "snapshot"], f"the push read {plan['ref']} = {_s(seen['snapshot'])}, the ref held {_s(seen['model_at_snapshot'])}")
+        a_op = ("add", nameb, None, g) if seen["snapshot"] is None else ("set", nameb, seen["snapshot"], g)
+        a_took = model.apply(a_op)
+        sim.event("A", "push", plan["ref"], OPNAME[a_op[0]], a_took)
+        if when == "after":
+            do_b()
+    op, got, want = seen["b"]
+    detail = (
+        f"push onto {plan['ref']} (read it as {_s(seen['snapshot'])}, writes {_s(g)}); second updater {when} the push: "
+        f"{OPNAME[op[0]]}(old={_s(op[2])}, new={_s(op[3]) if op[0] != 'remove' else None}) returned {got}"
+    )
+    sim.probe(f"push:{when}:{op[0]}:{got}")
+    if got != want:
+        sim.fail("cas", ["cas", "push", f"second-updater:{OPNAME[op[0]]}:result"], f"{detail}, the model says {want}")
+    diff = _check_state(sim, t, model, names, "push", True)
+    if diff is not None:
+        lost = got and when != "after" and gitsim.read_back(t, [nameb])[0][nameb] == g
+        tag = "acknowledged-update-lost" if lost else "final-state"
+        sim.fail("cas", ["cas", "push", tag], f"{detail}; afterwards {diff}")
+    sim.state_seen((model.key(), when, op[0], got, a_took))
+    sim.nontrivial = when == "during" and got
 
 
 def _check_state(sim, t, model, names, where, sig):
@@ -207,7 +337,9 @@ def _run_seq(sim, plan, t, model, names):
     prev = {}  # name -> earlier values
     last_writer = {}  # container index -> another container changed refs since this one was created
     interesting = False
-    for i, (kind, name, oldk, newi, stalei, fresh) in enumerate(plan["ops"]):
+    for i, opspec in enumerate(plan["ops"]):
+        kind, name, oldk, newi, stalei, fresh = opspec[:6]
+        newk = opspec[6] if len(opspec) > 6 else "fresh"
         nameb = name.encode()
         which = (stalei + i) % 2
         if fresh:
@@ -230,7 +362,11 @@ def _run_seq(sim, plan, t, model, names):
             cands = [v for v in prev.get(nameb, []) if v != cur] if oldk == "prev" else []
             old = cands[-1] if cands else sha(stalei)
             cls = "stale-old"
-        op = (kind, nameb, old, sha(newi))
+        newv = sha(newi)
+        if newk == "cur" and kind == "set" and cur is not None and not is_sym:
+            newv = cur
+            cls += ":new=current"
+        op = (kind, nameb, old, newv)
         before = model.copy()
         try:
             got = gitsim.call_op(refs, op)
@@ -259,7 +395,7 @@ def _run_seq(sim, plan, t, model, names):
             want = model.apply(op)
         if got:
             last_writer[1 - which] = True  # the other container's cached view is now out of date
-        if cls == "stale-old" and cur is not None or cls == "exists":
+        if cls.startswith("stale-old") and cur is not None or cls == "exists":
             interesting = True
         sim.event("op", i, OPNAME[kind], name, cls, got)
         sim.probe(f"{kind}:{cls}:{bool(got)}")
